@@ -216,6 +216,7 @@ class Round:
         self.path = []
         self.rounded = []
         self.float_names = set()
+        self.rnd_cache = {}
 
     # -- construction
     def const(self, q):
@@ -340,8 +341,12 @@ class Round:
         """r = fl(e): |r - e| <= U*|e|."""
         if not self.rounding:
             return RV(e, lo=lo, hi=hi)
+        key = e.get_id()
+        if key in self.rnd_cache:
+            return self.rnd_cache[key][0]   # float operations are deterministic: same operands, same result
         self.n_ops += 1
         r = self.fresh(name)
+        self.rnd_cache[key] = (r, e)
         u = _q(Fraction(1, 2 ** 53))
         ae = _abs(e)
         self.add(z3.And(r.t - e <= u * ae, e - r.t <= u * ae), defines=r)
